@@ -75,6 +75,7 @@ type vfc18Block struct {
 	Cmds     [][][]byte // queued commands (name first)
 	Rejected string     // non-empty: the node refused the block itself (CROSSSLOT / MOVED: not served here)
 	Injected string     // non-empty: a fault the harness asked for
+	Run      string     // run id in the block's marker ("" when the first command is no marker)
 }
 
 // vfc18Nodes: cluster node doubles. Each node serves the slots ownerIdx says,
@@ -96,7 +97,8 @@ type vfc18Nodes struct {
 	//   crossslot (queue-time error + EXECABORT), execerr (error entry inside the EXEC array),
 	//   moved / ask (redirect the whole block to the next node once)
 	inject     string
-	acceptOnce int // node index that accepts its next block whatever the slots (redirect target); -1 = none
+	injectRun  string // … only a block whose marker carries this run id (a late block of an earlier case must not take it)
+	acceptOnce int    // node index that accepts its next block whatever the slots (redirect target); -1 = none
 }
 
 func (ns *vfc18Nodes) ownerIdx(slot int) int { return slot * len(ns.addrs) / 16384 }
@@ -211,7 +213,7 @@ func (ns *vfc18Nodes) serve(idx int, c net.Conn) {
 	inMulti := false
 	var cur [][][]byte
 	blockSlot := -1
-	rejected, injected := "", ""
+	rejected, injected, run := "", "", ""
 	accept := false
 	for {
 		cmd, err := vfc18ReadCmd(br)
@@ -231,21 +233,17 @@ func (ns *vfc18Nodes) serve(idx int, c net.Conn) {
 			bw.WriteString("+OK\r\n")
 		case name == "multi":
 			inMulti = true
-			cur, blockSlot, rejected, injected = nil, -1, "", ""
+			cur, blockSlot, rejected, injected, run = nil, -1, "", "", ""
 			ns.mu.Lock()
 			if ns.acceptOnce == idx {
 				accept = true
 				ns.acceptOnce = -1
 			}
-			if ns.inject != "" && !accept {
-				injected = ns.inject
-				ns.inject = ""
-			}
 			ns.mu.Unlock()
 			bw.WriteString("+OK\r\n")
 		case name == "exec":
 			ns.mu.Lock()
-			ns.blocks = append(ns.blocks, vfc18Block{Node: idx, Cmds: cur, Rejected: rejected, Injected: injected})
+			ns.blocks = append(ns.blocks, vfc18Block{Node: idx, Cmds: cur, Rejected: rejected, Injected: injected, Run: run})
 			ns.mu.Unlock()
 			switch {
 			case rejected != "" || injected == "crossslot" || injected == "moved" || injected == "ask":
@@ -271,6 +269,18 @@ func (ns *vfc18Nodes) serve(idx int, c net.Conn) {
 			cur = append(cur, cmd)
 			reply := "+QUEUED\r\n"
 			ns.mu.Lock()
+			if len(cur) == 1 {
+				// the marker names the run the block belongs to; the one-shot fault is decided here
+				if len(cmd) > 2 && name == "set" && checkpoint.IsBisyncMarkerKey(string(cmd[1])) {
+					if m, err := checkpoint.DecodeBisyncMarker(string(cmd[2])); err == nil && m != nil {
+						run = m.RunID
+					}
+				}
+				if ns.inject != "" && !accept && (ns.injectRun == "" || ns.injectRun == run) {
+					injected = ns.inject
+					ns.inject = ""
+				}
+			}
 			enforce := ns.enforce && !accept
 			var keys [][]byte
 			if enforce {
@@ -332,6 +342,33 @@ func (ns *vfc18Nodes) take() ([]vfc18Block, int) {
 	return b, s
 }
 
+// takeRun: the blocks of one run (marker run id); blocks of other runs — lane workers of an
+// earlier case that were still sending when its loop returned — are dropped and counted
+func (ns *vfc18Nodes) takeRun(run string) (mine []vfc18Block, stray int, late int) {
+	all, stray := ns.take()
+	for _, b := range all {
+		if b.Run == run {
+			mine = append(mine, b)
+		} else {
+			late++
+		}
+	}
+	return mine, stray, late
+}
+
+// goodCount: blocks of the run the nodes have accepted so far (no fault, no rejection)
+func (ns *vfc18Nodes) goodCount(run string) int {
+	ns.mu.Lock()
+	defer ns.mu.Unlock()
+	n := 0
+	for _, b := range ns.blocks {
+		if b.Run == run && b.Injected == "" && b.Rejected == "" {
+			n++
+		}
+	}
+	return n
+}
+
 func (ns *vfc18Nodes) close() {
 	for _, l := range ns.lns {
 		l.Close()
@@ -342,20 +379,20 @@ func (ns *vfc18Nodes) close() {
 // client's.
 type vfc18Redis struct{ c *cluster.Cluster }
 
-func (r *vfc18Redis) Close() error                                       { return nil }
-func (r *vfc18Redis) Do(string, ...interface{}) (interface{}, error)     { return "OK", nil }
-func (r *vfc18Redis) Send(string, ...interface{}) error                  { return nil }
-func (r *vfc18Redis) SendAndFlush(string, ...interface{}) error          { return nil }
-func (r *vfc18Redis) Receive() (interface{}, error)                      { return "OK", nil }
-func (r *vfc18Redis) ReceiveString() (string, error)                     { return "OK", nil }
-func (r *vfc18Redis) ReceiveBool() (bool, error)                         { return true, nil }
-func (r *vfc18Redis) BufioReader() *bufio.Reader                         { return nil }
-func (r *vfc18Redis) BufioWriter() *bufio.Writer                         { return nil }
-func (r *vfc18Redis) Flush() error                                       { return nil }
-func (r *vfc18Redis) RedisType() config.RedisType                        { return config.RedisTypeCluster }
-func (r *vfc18Redis) Addresses() []string                                { return nil }
-func (r *vfc18Redis) NewBatcher(bool) rediscommon.CmdBatcher             { return &vfc18NopBatcher{} }
-func (r *vfc18Redis) NewTxnBatcher() rediscommon.CmdBatcher              { return r.c.NewTxnBatcher() }
+func (r *vfc18Redis) Close() error                                                          { return nil }
+func (r *vfc18Redis) Do(string, ...interface{}) (interface{}, error)                        { return "OK", nil }
+func (r *vfc18Redis) Send(string, ...interface{}) error                                     { return nil }
+func (r *vfc18Redis) SendAndFlush(string, ...interface{}) error                             { return nil }
+func (r *vfc18Redis) Receive() (interface{}, error)                                         { return "OK", nil }
+func (r *vfc18Redis) ReceiveString() (string, error)                                        { return "OK", nil }
+func (r *vfc18Redis) ReceiveBool() (bool, error)                                            { return true, nil }
+func (r *vfc18Redis) BufioReader() *bufio.Reader                                            { return nil }
+func (r *vfc18Redis) BufioWriter() *bufio.Writer                                            { return nil }
+func (r *vfc18Redis) Flush() error                                                          { return nil }
+func (r *vfc18Redis) RedisType() config.RedisType                                           { return config.RedisTypeCluster }
+func (r *vfc18Redis) Addresses() []string                                                   { return nil }
+func (r *vfc18Redis) NewBatcher(bool) rediscommon.CmdBatcher                                { return &vfc18NopBatcher{} }
+func (r *vfc18Redis) NewTxnBatcher() rediscommon.CmdBatcher                                 { return r.c.NewTxnBatcher() }
 func (r *vfc18Redis) IterateNodes(func(string, interface{}, error), string, ...interface{}) {}
 
 var _ client.Redis = (*vfc18Redis)(nil)
@@ -597,7 +634,9 @@ var vfc18Tmpls = []vfc18Tmpl{
 		}
 		return a, vfc18Seq(0, n)
 	}},
-	{"pfmerge", func(r *vfutil.Rand, k func() []byte) ([][]byte, []int) { return [][]byte{k(), k(), k()}, []int{0, 1, 2} }},
+	{"pfmerge", func(r *vfutil.Rand, k func() []byte) ([][]byte, []int) {
+		return [][]byte{k(), k(), k()}, []int{0, 1, 2}
+	}},
 	{"bitop", func(r *vfutil.Rand, k func() []byte) ([][]byte, []int) {
 		return [][]byte{[]byte("AND"), k(), k(), k()}, []int{1, 2, 3}
 	}},
@@ -822,13 +861,14 @@ func vfc18TruthOf(cmds []vfc18Cmd, fb string) vfc18Truth {
 }
 
 type vfc18World struct {
-	s        *vfutil.Session
-	nodes    *vfc18Nodes
-	n        int
-	cp       string
-	ro       *RedisOutput
-	clusters map[string]*cluster.Cluster
-	privSeq  int
+	s                   *vfutil.Session
+	nodes               *vfc18Nodes
+	n                   int
+	cp                  string
+	ro                  *RedisOutput
+	clusters            map[string]*cluster.Cluster
+	privSeq             int
+	loopSeq, loopStalls int
 }
 
 // owner of a slot in the client's slot map: equal ranges over n nodes
@@ -1289,7 +1329,7 @@ func TestVerifC18(t *testing.T) {
 	// filter-reduced transactions: the real key filter projects DEL/UNLINK/MSET
 	// and drops whole commands; what is left goes to the builder
 	fro := NewRedisOutput(RedisOutputConfig{InputName: "in-1", CheckpointName: cp, BisyncEnabled: true,
-		Redis: config.RedisConfig{Type: config.RedisTypeCluster},
+		Redis:  config.RedisConfig{Type: config.RedisTypeCluster},
 		Filter: config.FilterConfig{KeyFilter: &config.FilterKeyConfig{PrefixKeyBlacklist: []string{"q", "{t}"}}}})
 	for i := 0; i < vfutil.Scale(1500, 40000); i++ {
 		cmds := vfc18GenTxn(r)
